@@ -37,13 +37,19 @@ def gen_ctx(rng):
                        'start: "%s" x "%s" "%s" | "%s" x | x "%s"\nx: "%s"\n' % (a, d, d, b, a, c)]) + rng.choice(['%ignore " "\n', ''])
 
 
+def gen_multi(rng):
+    """several start rules whose opening terminals differ"""
+    a, b, c, d = rng.sample('abcd', 4)
+    return rng.choice(['s0: "%s" "%s"\ns1: "%s" "%s"?\n' % (a, b, c, d), 's0: "%s"+\ns1: "%s" s0 | "%s"\ns2: "%s"\n' % (a, b, c, d), 's0: x "%s"\ns1: "%s" x\nx: "%s" | "%s"\n' % (a, b, c, d)]) + rng.choice(['%ignore " "\n', ''])
+
+
 def gen_overlap(rng):
     """an %ignore pattern that can begin where a start terminal begins (and win there), hiding a real start inside its span"""
     return rng.choice(['start: "a" "c"\n%ignore /aba/\n', 'start: "#" WORD+\nWORD: /[a-z]+/\n%ignore /#![^ \\n]*/\n%ignore " "\n', 'start: A B\nA: "a"\nB: "b"\n%ignore /ab+a/\n%ignore " "\n',
                        'start: "a" "b"+\n%ignore /ab?c/\n', 'start: X+ ";"\nX: "x"\n%ignore /x;x/\n%ignore " "\n'])
 
 
-def brute(p, data, lo, hi, blank):
+def brute(p, data, lo, hi, blank, start='start'):
     from lark.exceptions import UnexpectedInput
     out = []; pos = lo
     while pos < hi:
@@ -54,7 +60,7 @@ def brute(p, data, lo, hi, blank):
             for e in range(hi, s, -1):
                 if data[e - 1:e] == blank: continue
                 try:
-                    p.parse(data[s:e]); best = e; break
+                    p.parse(data[s:e], start=start); best = e; break
                 except UnexpectedInput:
                     pass
             if best is not None:
@@ -72,9 +78,10 @@ def _case(args):
     rng = random.Random(seed)
     lx = rng.choice(['basic', 'contextual'])
     use_bytes = rng.random() < 0.25
+    starts = re.findall(r'^(s[0-9]): ', g, re.M) or ['start']
     try:
         with guarded(5):
-            p = Lark(g, parser='lalr', lexer=lx, use_bytes=use_bytes, propagate_positions=True)
+            p = Lark(g, parser='lalr', lexer=lx, use_bytes=use_bytes, propagate_positions=True, start=starts)
     except (GrammarError, LarkError):
         return {'nobuild': True}
     recs = []
@@ -91,21 +98,23 @@ def _case(args):
         ts = TextSlice(data, lo, hi)
         rec = {'text': text, 'lo': lo, 'hi': hi, 'lexer': lx, 'bytes': use_bytes}
         with guarded(10):
-            ms = list(p.scan(ts))
+            st_ = rng.choice(starts)            # (several start rules: one instance scanned with different start= values in sequence)
+            rec['start'] = st_
+            ms = list(p.scan(ts, start=st_) if len(starts) > 1 else p.scan(ts))
         rec['ranges'] = [list(m.range) for m in ms]
         # values = parse of the snippet, coordinates of the whole buffer
         vals_ok = True
         for m in ms:
             s, e = m.range
             try:
-                ref = p.parse(TextSlice(data, s, e))
+                ref = p.parse(TextSlice(data, s, e), start=st_)
                 if canon(ref) != canon(m.value):
                     vals_ok = False; rec['value_diff'] = {'range': [s, e], 'scan': canon(m.value), 'parse': canon(ref)}
             except UnexpectedInput as ex:
                 vals_ok = False; rec['value_diff'] = {'range': [s, e], 'parse_error': type(ex).__name__}
         rec['values_ok'] = vals_ok
         # ---- oracle tables for the model loop
-        start_state = p.parser.parser._parse_table.start_states['start']
+        start_state = p.parser.parser._parse_table.start_states[st_]
         lexer = p.parser.lexer
         sub = lexer.lexers[start_state] if hasattr(lexer, 'lexers') else lexer
         flags = p.options.g_regex_flags
@@ -120,7 +129,7 @@ def _case(args):
         first_start = {}
         for s in range(lo, hi):
             with guarded(10):
-                ip = p.parse_interactive(TextSlice(data, s, hi))
+                ip = p.parse_interactive(TextSlice(data, s, hi), start=st_)
                 ip.parser_state.parse_conf.callbacks = {}
                 toks, longest = [], 0
                 try:
@@ -140,7 +149,7 @@ def _case(args):
         rec['search'], rec['attempt'], rec['first_start'] = search, attempt, first_start
         if safe is True:
             with guarded(20):
-                rec['brute'] = brute(p, data, lo, hi, b' ' if use_bytes else ' ')
+                rec['brute'] = brute(p, data, lo, hi, b' ' if use_bytes else ' ', st_)
         recs.append(rec)
     return {'grammar': g, 'recs': recs}
 
@@ -156,6 +165,8 @@ def run(ctx, res):
             jobs.append((rng.choice([gen_ctx(rng), lalrlib.gen_lalr(rng, prio_p=0) + '%ignore " "\n']), rng.randrange(1 << 30), True))      # merged-lookahead / shared-core LALR shapes
         elif i % 8 == 5:
             jobs.append((gen_overlap(rng), rng.randrange(1 << 30), 'overlap'))
+        elif i % 8 == 7:
+            jobs.append((gen_multi(rng), rng.randrange(1 << 30), True))
         else:
             jobs.append(((gen_safe if safe else gen_rich)(rng), rng.randrange(1 << 30), safe))
     for f in ctx['known']:
